@@ -295,7 +295,8 @@ def rule_f(repo, chk):
     probe = ast.parse("def probe(self, sys_path):\n    path = Path(x).absolute()\n    return [p for p in sys_path if p != path]\n").body[0]
     for n in ast.walk(probe):
         for ch in ast.iter_child_nodes(n):
-            ch._parent = n
+            if not isinstance(ch, (ast.expr_context, ast.operator, ast.boolop, ast.unaryop, ast.cmpop)):     # process-wide singletons
+                ch._parent = n
     from ..core import own_nodes as _own
     hit = [c for c in ast.walk(probe) if isinstance(c, ast.Compare) and path_kind(probe, c.left) == 'str' and path_kind(probe, c.comparators[0]) == 'path']
     chk.ob('C20.f', bool(hit), None, 'self-check: the detector classifies `p != path` (p from sys_path, path = Path(..).absolute()) as str vs Path', key='probe')
